@@ -15,7 +15,7 @@ import (
 // Trace ops: put / putmany / restart_clean (Discard or abandon, reopen) /
 // restart_final (Finalize, reopen) / mismatch (Arg selects the changed field; must be last).
 
-var mismatchKinds = []string{"roots-different", "roots-extra", "roots-missing", "roots-dup-swap", "data-pad", "version"}
+var mismatchKinds = []string{"roots-different", "roots-extra", "roots-missing", "roots-dup-swap", "data-pad", "version", "roots-other-codec"}
 
 // mismatchConfig returns the configuration and roots a mismatching reopen uses,
 // or ok=false when that kind does not apply to cfg.
@@ -50,6 +50,20 @@ func mismatchConfig(cfg Config, kind string) (Config, []cid.Cid, bool) {
 			return c, nil, false
 		}
 		c.Roots[idx] = fresh
+	case "roots-other-codec":
+		// one root replaced by a CID with the same multihash under another codec / CID version
+		idx := -1
+		for i, r := range c.Roots {
+			switch r.Kind {
+			case "raw", "cbor", "pb", "v0":
+				idx = i
+			}
+		}
+		if idx < 0 {
+			return c, nil, false
+		}
+		other := map[string]string{"raw": "cbor", "cbor": "pb", "pb": "v0", "v0": "raw"}
+		c.Roots[idx].Kind = other[c.Roots[idx].Kind]
 	case "data-pad":
 		if c.CarV1 {
 			return c, nil, false
